@@ -1,12 +1,395 @@
-// Package c13: correspondence harness of C13 (stub: replaced when C13 is built).
+// Package c13: derived Sort / Keys / Min / Max on real inputs vs the models of
+// coq/theories/Ord/Model.v and the specification predicates (coq/theories/Eval13.v).
+//
+// Element types T come from the shared catalogue (internal/ga); every T is wrapped as []T for
+// deriveSort / deriveMin / deriveMax (list form with default, and the two-value form on T
+// itself); deriveKeys is called on every T whose underlying type is a map.  The flow is the one
+// of ga.ValueRun (probe every type, batch the accepted ones, one driver per batch), extended by
+// per-group probing (a type may be usable for Sort but not for Min/Max) and by a second driver
+// phase whose inputs are the outputs of the first (already sorted and reversed lists).
 package c13
 
 import (
 	"fmt"
+	"os"
+	"path/filepath"
+	"sort"
+	"strings"
+	"sync"
 
+	"verifharness/internal/ga"
 	"verifharness/internal/hx"
 )
 
+var (
+	byGoMu sync.Mutex
+	byGo   = map[string]*ga.Type{}
+)
+
+func lookup(tgo string) *ga.Type {
+	byGoMu.Lock()
+	defer byGoMu.Unlock()
+	return byGo[tgo]
+}
+
+func mapOf(t *ga.Type) *ga.Type {
+	if t == nil {
+		return nil
+	}
+	u := t.Under(map[int]*ga.Type{})
+	if u != nil && u.K == ga.KMap {
+		return u
+	}
+	return nil
+}
+
+func wrap(op, format string, nT int) ga.Call {
+	return ga.Call{
+		Op: op,
+		Wrap: func(idx int, tgo string) string {
+			args := []interface{}{idx}
+			for i := 0; i < nT; i++ {
+				args = append(args, tgo)
+			}
+			args = append(args, idx)
+			return fmt.Sprintf(format, args...)
+		},
+		WrapFn: func(idx int) string { return fmt.Sprintf("%s_%d", op, idx) },
+	}
+}
+
+var (
+	callSort = wrap("sort", "func sort_%d(l []%s) []%s { return deriveSort_%d(l) }\n", 2)
+	callMin  = wrap("min", "func min_%d(l []%s, d %s) %s { return deriveMin_%d(l, d) }\n", 3)
+	callMax  = wrap("max", "func max_%d(l []%s, d %s) %s { return deriveMax_%d(l, d) }\n", 3)
+	callMin2 = wrap("min2", "func min2_%d(a, b %s) %s { return deriveMin2_%d(a, b) }\n", 2)
+	callMax2 = wrap("max2", "func max2_%d(a, b %s) %s { return deriveMax2_%d(a, b) }\n", 2)
+	callKeys = ga.Call{
+		Op: "keys",
+		Wrap: func(idx int, tgo string) string {
+			if m := mapOf(lookup(tgo)); m != nil {
+				return fmt.Sprintf("func keys_%d(m %s) []%s { return deriveKeys_%d(m) }\n", idx, tgo, m.Key.Go(0), idx)
+			}
+			return fmt.Sprintf("func keys_%d() {}\n", idx) // not a map: registered, never called
+		},
+		WrapFn: func(idx int) string { return fmt.Sprintf("keys_%d", idx) },
+	}
+)
+
+type group struct {
+	name  string
+	calls []ga.Call
+}
+
+var groups = []group{
+	{"sort", []ga.Call{callSort}},
+	{"minmax", []ga.Call{callMin, callMax, callMin2, callMax2}},
+	{"keys", []ga.Call{callKeys}},
+}
+
+func allCalls() []ga.Call {
+	var cs []ga.Call
+	for _, g := range groups {
+		cs = append(cs, g.calls...)
+	}
+	return cs
+}
+
+// class of one probe: ok | typecheck-error | generator-error | panic | timeout | ...
+func classOf(pr ga.ProbeResult) string {
+	if pr.GenClass == "ok" && !pr.VetOK {
+		return "typecheck-error"
+	}
+	return pr.GenClass
+}
+
+func isBoolOrComplex(t *ga.Type) bool {
+	return t.K == ga.KBasic && (t.Basic == "bool" || t.Basic == "complex64" || t.Basic == "complex128")
+}
+
+type caseInfo struct {
+	idx      int
+	seedSort bool   // a sort line whose output seeds the second phase
+	def      string // default value used with this list
+}
+
 func Run(cfg hx.Config) (*hx.Meta, error) {
-	return nil, fmt.Errorf("C13: harness not built yet")
+	meta := &hx.Meta{Property: "C13", Seed: cfg.Seed, Tier: cfg.Tier}
+	r := hx.NewRand(cfg.Seed)
+	cat := ga.NewCatalogue()
+	thorough := cfg.Tier == "thorough"
+	var types []*ga.Type
+	pool := 10
+	if thorough {
+		types = cat.Shapes(r, 2, 300)
+		pool = 16
+	} else {
+		types = cat.Shapes(r, 1, 20)
+		d2 := cat.Shapes(r, 2, 0)
+		hx.Shuffle(r, d2)
+		types = ga.Dedup(append(types, d2[:40]...))
+	}
+	types = corpusFirst(cfg.Corpus, cat, r, types, meta)
+	for _, t := range types {
+		byGo[t.Go(0)] = t
+	}
+
+	// ---- probing: the whole call set first, the groups separately where that fails
+	full := ga.Probe(cfg.Goderive, filepath.Join(cfg.Work, "probe"), types, allCalls(), true)
+	meta.GoderiveRuns += len(types)
+	usable := make([]map[string]bool, len(types))
+	var sup strings.Builder
+	var redo []int
+	for i, t := range types {
+		usable[i] = map[string]bool{}
+		if classOf(full[i]) == "ok" {
+			for _, g := range groups {
+				if g.name == "keys" && mapOf(t) == nil {
+					continue
+				}
+				usable[i][g.name] = true
+				fmt.Fprintf(&sup, "(sup %s %s ok)\n", g.name, t.Sexp())
+			}
+			meta.Count("probe/all-groups-ok")
+		} else {
+			redo = append(redo, i)
+		}
+	}
+	for _, g := range groups {
+		var sub []*ga.Type
+		var subIdx []int
+		for _, i := range redo {
+			if g.name == "keys" && mapOf(types[i]) == nil {
+				continue
+			}
+			sub = append(sub, types[i])
+			subIdx = append(subIdx, i)
+		}
+		if len(sub) == 0 {
+			continue
+		}
+		prs := ga.Probe(cfg.Goderive, filepath.Join(cfg.Work, "probe-"+g.name), sub, g.calls, true)
+		meta.GoderiveRuns += len(sub)
+		for k, pr := range prs {
+			i := subIdx[k]
+			t := types[i]
+			cls := classOf(pr)
+			meta.Count("probe/" + g.name + "/" + cls)
+			switch cls {
+			case "ok":
+				usable[i][g.name] = true
+				fmt.Fprintf(&sup, "(sup %s %s ok)\n", g.name, t.Sexp())
+			case "typecheck-error":
+				// goderive exit 0, output does not compile: reported directly (no model needed)
+				class := "c13-generated-code-does-not-typecheck"
+				if g.name == "minmax" && isBoolOrComplex(t) {
+					class = "c13-minmax-bool-complex"
+				}
+				meta.AddDirect(hx.Direct{Class: class,
+					What:   fmt.Sprintf("goderive exits 0 for derive %s over element type %s but the generated code does not type-check", g.name, t.Go(0)),
+					Files:  map[string]string{"derived.gen.go": hx.Truncate(pr.Derived, 6000)},
+					Cmd:    "goderive . && go vet ./...   (scratch package with the " + g.name + " wrappers for " + t.Go(0) + ")",
+					Output: hx.Truncate(pr.VetOut, 1500)})
+			default:
+				fmt.Fprintf(&sup, "(sup %s %s %s)\n", g.name, t.Sexp(), cls)
+				if cls == "panic" || cls == "timeout" {
+					meta.Notes = append(meta.Notes, "goderive "+cls+" for "+g.name+" over "+t.Go(0)+" (see C09)")
+				}
+			}
+		}
+	}
+	// a type whose groups all pass separately but not together: unexpected
+	for _, i := range redo {
+		all := true
+		for _, g := range groups {
+			if g.name == "keys" && mapOf(types[i]) == nil {
+				continue
+			}
+			all = all && usable[i][g.name]
+		}
+		if all {
+			meta.AddDirect(hx.Direct{Class: "c13-combined-package-fails",
+				What:   "sort, min/max and keys over " + types[i].Go(0) + " are accepted one by one but not in one package",
+				Cmd:    "goderive . && go vet ./...",
+				Output: hx.Truncate(full[i].GenOut+"\n"+full[i].VetOut, 2000)})
+		}
+	}
+	supf := filepath.Join(cfg.Out, "c13-support.obs")
+	if err := os.WriteFile(supf, []byte(sup.String()), 0o644); err != nil {
+		return nil, err
+	}
+	meta.ObsFiles = append(meta.ObsFiles, supf)
+
+	// ---- batches per signature of usable groups
+	sigTypes := map[string][]*ga.Type{}
+	sigIdx := map[string][]int{}
+	for i, t := range types {
+		var names []string
+		for _, g := range groups {
+			if usable[i][g.name] {
+				names = append(names, g.name)
+			}
+		}
+		if len(names) == 0 {
+			continue
+		}
+		// the keys wrapper of a non-map type is a dummy: such a type batches with the full set
+		sig := strings.Join(names, "+")
+		if sig == "sort+minmax" && mapOf(t) == nil {
+			sig = "sort+minmax+keys"
+		}
+		sigTypes[sig] = append(sigTypes[sig], t)
+		sigIdx[sig] = append(sigIdx[sig], i)
+	}
+	var sigs []string
+	for s := range sigTypes {
+		sigs = append(sigs, s)
+	}
+	sort.Strings(sigs)
+	type batch struct {
+		types []*ga.Type
+		idx   []int
+		calls []ga.Call
+		sig   string
+	}
+	var batches []batch
+	for _, s := range sigs {
+		var calls []ga.Call
+		for _, g := range groups {
+			if strings.Contains("+"+s+"+", "+"+g.name+"+") {
+				calls = append(calls, g.calls...)
+			}
+		}
+		bts, bis := ga.Batches(sigTypes[s], sigIdx[s], 50)
+		for b := range bts {
+			batches = append(batches, batch{bts[b], bis[b], calls, s})
+		}
+	}
+	nb := len(batches)
+	obsFiles := make([]string, nb)
+	errs := make([]error, nb)
+	rs := make([]*hx.Rand, nb)
+	for b := range rs {
+		rs[b] = r.Fork(uint64(b))
+	}
+	hx.Parallel(nb, 8, func(b int) {
+		bt := batches[b]
+		p := &ga.Pkg{Dir: filepath.Join(cfg.Work, fmt.Sprintf("batch%02d", b)), Types: bt.types, Idx: bt.idx, Calls: bt.calls}
+		if errs[b] = p.Write(); errs[b] != nil {
+			return
+		}
+		g := p.Generate(cfg.Goderive)
+		if g.Exit != 0 {
+			meta.AddDirect(hx.Direct{Class: "c13-batch-generate-failed", What: "goderive fails on a batch of types that it accepts one by one", Cmd: "goderive .", Output: hx.Truncate(g.Out, 3000)})
+			return
+		}
+		if bd := p.BuildDriver(); bd.Exit != 0 {
+			meta.AddDirect(hx.Direct{Class: "c13-batch-build-failed", What: "batch of individually type-correct packages does not build", Cmd: "go build -tags drv", Output: hx.Truncate(bd.Out, 3000)})
+			return
+		}
+		has := func(g string) bool { return strings.Contains("+"+bt.sig+"+", "+"+g+"+") }
+		gen := ga.NewGen(rs[b], pool)
+		cb := &cases{r: rs[b], gen: gen, thorough: thorough, meta: meta}
+		for i, t := range bt.types {
+			vals := gen.Pool(t, map[int]*ga.Type{}, 3)
+			cb.forType(bt.idx[i], t, vals, has("sort"), has("minmax"), has("keys") && mapOf(t) != nil)
+		}
+		res := p.RunDriver(cb.text.String())
+		if res.Exit != 0 {
+			meta.AddDirect(hx.Direct{Class: "c13-driver-failed", What: "driver crashed", Cmd: "./drv cases.txt", Output: hx.Truncate(res.Out, 3000)})
+			return
+		}
+		out := res.Stdout
+		// second phase: the sorted outputs and their reversals as inputs
+		if second := cb.secondPhase(res.Stdout, has("minmax")); second != "" {
+			res2 := p.RunDriver(second)
+			if res2.Exit != 0 {
+				meta.AddDirect(hx.Direct{Class: "c13-driver-failed", What: "driver crashed (second phase)", Cmd: "./drv cases.txt", Output: hx.Truncate(res2.Out, 3000)})
+				return
+			}
+			out += res2.Stdout
+		}
+		obsFiles[b] = filepath.Join(cfg.Out, fmt.Sprintf("c13-batch%02d.obs", b))
+		errs[b] = os.WriteFile(obsFiles[b], []byte(out), 0o644)
+		for _, l := range pickSamples(out) {
+			meta.Sample(hx.Truncate(l, 300))
+		}
+	})
+	for b := range obsFiles {
+		if errs[b] != nil {
+			return nil, errs[b]
+		}
+		if obsFiles[b] != "" {
+			meta.ObsFiles = append(meta.ObsFiles, obsFiles[b])
+			meta.GoderiveRuns++
+			meta.Packages++
+		}
+	}
+	nuse := 0
+	for i := range types {
+		if len(usable[i]) > 0 {
+			nuse++
+		}
+	}
+	meta.Count(fmt.Sprintf("types=%d usable=%d", len(types), nuse))
+	return meta, nil
+}
+
+// pickSamples: one observation of each kind from a batch output.
+func pickSamples(out string) []string {
+	seen := map[string]bool{}
+	var res []string
+	for _, l := range strings.Split(out, "\n") {
+		i := strings.IndexByte(l, ' ')
+		if i < 2 || len(l) > 420 || len(l) < 140 {
+			continue
+		}
+		if k := l[1:i]; !seen[k] {
+			seen[k] = true
+			res = append(res, l)
+		}
+	}
+	return res
+}
+
+// corpusFirst puts the types named in corpus/C13/*.txt (lines `type <Go spelling>`) in front, adding
+// them from the full catalogue when the seeded selection does not contain them.
+func corpusFirst(dir string, cat *ga.Catalogue, r *hx.Rand, types []*ga.Type, meta *hx.Meta) []*ga.Type {
+	ents, err := os.ReadDir(dir)
+	if err != nil {
+		return types
+	}
+	var want []string
+	for _, e := range ents {
+		if !strings.HasSuffix(e.Name(), ".txt") {
+			continue
+		}
+		b, err := os.ReadFile(filepath.Join(dir, e.Name()))
+		if err != nil {
+			continue
+		}
+		for _, l := range strings.Split(string(b), "\n") {
+			if strings.HasPrefix(l, "type ") {
+				want = append(want, strings.TrimSpace(strings.TrimPrefix(l, "type ")))
+			}
+		}
+	}
+	if len(want) == 0 {
+		return types
+	}
+	all := cat.Shapes(hx.NewRand(0), 2, 0)
+	bySpelling := map[string]*ga.Type{}
+	for _, t := range all {
+		bySpelling[t.Go(0)] = t
+	}
+	var front []*ga.Type
+	for _, w := range want {
+		if t, ok := bySpelling[w]; ok {
+			front = append(front, t)
+			meta.Count("corpus-types")
+		} else {
+			meta.Notes = append(meta.Notes, "corpus type not in the catalogue: "+w)
+		}
+	}
+	return ga.Dedup(append(front, types...))
 }
